@@ -547,3 +547,10 @@ MUTANTS += [
      """                if False and not any(field_asset is asset for asset in self.assets):""",
      'revert 35d0000'),
 ]
+
+MUTANTS += [
+    ('fixrev_add_twice', ['C05'], M,
+     """        if any(asset is model_asset for model_asset in self.assets):
+            raise ValueError('Asset is already part of the model.')
+""", "", 'revert 42afa54 (assets)'),
+]
